@@ -74,3 +74,8 @@ add("C02", "exploration", "vh",
     "deviation-bounded exploration of the budget answer: every budget class of every enumerated program",
     "For every succeeding program of four grammars x 5 flag sets the only budget-dependent environment answer ('is cost > max?') is explored completely: every budget 1..=C+2 for programs up to the sweep cap, and for costlier programs every threshold extracted from the logged comparisons (hook H2) +-1, plus 2^32, 2^63 and u64::MAX-k. Oracles: soundness, identical successes, upward closure, exact 'cost exceeded' below, tightness (except grandfathered guards). The threshold extraction is validated against the full sweep on every cheap program.",
     "Differential / algebraic oracle on the real interpreter (no separate model). 'May enter a grandfathered guard' is over-approximated syntactically (NEW_COST_MODEL and a softfork atom anywhere), which only skips the tightness clause.")
+
+add("C04", "exploration", "vh",
+    "exhaustive differential exploration (ENABLE_GC on vs off) over program spaces, budgets and allocator heap limits",
+    "Every program of the GC space (all 34 GC-candidate operators x inner expressions that produce each restore class), the recursive families, the guard space and P1/P2, under several base flag sets, is run with and without ENABLE_GC for budget 0, C, C-1 and interior thresholds, and under every heap limit within 70 bytes of the program's need; result, cost, error string and atom/pair/heap counts must be identical. The check fails as machinery if no restore happened.",
+    "Differential on the real interpreter; the allocator's own accounting is C12's subject.")
